@@ -50,6 +50,8 @@ def profile(name, r, ls):
         return (1 + q) * np.exp(-q)
     if name == "ExpQuad":
         return np.exp(-s * s / 2.0)
+    if name == "RatQuad":           # alpha = 1 (the default of mellon.cov.RatQuad): (1 + r^2 / (2 alpha ls^2))^-alpha
+        return 1.0 / (1.0 + s * s / 2.0)
     raise ValueError(name)
 
 
@@ -82,7 +84,8 @@ def inp_err_of(X):
 
 def gram_tol(est, A, B, ea, A2=None, B2=None, ea2=0.0, time=False):
     """entry-wise bound on |code Gram(A,B) - exact Gram|: as functions of the squared distance s the three profiles are
-    Lipschitz with constant |phi'(r)| / (2 r) <= 1.5 / ls^2 (Matern32 3/2, Matern52 5/6, ExpQuad 1/2: proved radial derivatives)"""
+    Lipschitz with constant |phi'(r)| / (2 r) <= 1.5 / ls^2 (Matern32 3/2, Matern52 5/6, ExpQuad 1/2: proved radial derivatives;
+    RatQuad with alpha = 1: 1/2)"""
     ls = float(est_ls(est))
     out = 0.0
     for (P, Q, e) in ((A, B, ea), (A2, B2, ea2)):
@@ -419,7 +422,9 @@ def run(ctx):
     for ci, (ename, gp) in enumerate(combos):
         r = np.random.default_rng(rng.randrange(2 ** 31))
         time_ = ename == "TimeSensitiveDensityEstimator"
-        kernel = ["Matern52", "ExpQuad", "Matern32"][(ci + ctx.seed) % 3] if ctx.thorough else ["Matern52", "Matern32"][(ci + ctx.seed) % 2]
+        # the kernel reaches the estimator through cov_func_curry (RatQuad: its first parameter is alpha, not ls)
+        kernel = (["Matern52", "ExpQuad", "Matern32", "RatQuad"][(ci + ctx.seed) % 4] if ctx.thorough
+                  else ["Matern52", "Matern32", "RatQuad"][(ci + ctx.seed) % 3])
         n = int(r.choice([20, 24, 28]))
         sd = int(r.choice([2, 3]))
         S = r.normal(size=(n, sd)) * np.array([1.0, 0.7, 1.3])[:sd]
@@ -523,6 +528,38 @@ def run(ctx):
                     ck.cmp("time_derivative", td2, td1 / at, (amp + 1e-9) * 2 / min(1.5, 1.5 * at) / min(at, 1.0) + 1e-9, key, desc, tight=False)
             except Exception as e:      # noqa
                 ctx.violation("C08|%s|%s|time|fit" % (ename, gp), "time-affine pair failed", dict(desc, error=repr(e)[:300]))
+    # ---- automatic time length scale: default-constructed time-sensitive estimators (no ls_time, no density_estimator_kwargs),
+    #      several of them in this one process; ls_time is a function of correlations of per-time-point log-densities, hence
+    #      invariant under isometries AND under scaling of the state coordinates (support comparison: it is an optimiser's result)
+    try:
+        r = np.random.default_rng(rng.randrange(2 ** 31))
+        n, sd = 24, 2
+        S = r.normal(size=(n, sd)) * np.array([1.0, 0.7])
+        tt = np.repeat(np.arange(3, dtype=float), [7, 9, 8])
+        Xa = np.hstack([S, tt[:, None]])[r.permutation(n)]
+        basea = Fit("TimeSensitiveDensityEstimator", "full", "Matern52", Xa, None, {})
+        fits += 1
+        dist["TimeSensitiveDensityEstimator|automatic ls_time"] = 0
+        Qa = random_orthogonal(r, sd, reflect=True)
+        for kind, a, f in (("scale", 25.0, lambda Z: 25.0 * Z), ("isometry", 1.0, lambda Z: Z @ Qa.T + 3.0),
+                           ("scale", 0.04, lambda Z: 0.04 * Z)):
+            X2 = apply_state(Xa, f, True)
+            othera = Fit("TimeSensitiveDensityEstimator", "full", "Matern52", X2, None, {})
+            fits += 1
+            dist["TimeSensitiveDensityEstimator|automatic ls_time"] += 1
+            key = "C08|TimeSensitiveDensityEstimator|full|automatic-ls_time|" + kind
+            desc = dict(estimator="TimeSensitiveDensityEstimator", gp_type="full", kernel="Matern52", n=n, state_dims=sd, x=Xa.tolist(),
+                        landmarks=None, verif_seed=ctx.seed, transformation=kind, a=a, Q=Qa.tolist() if kind == "isometry" else None,
+                        t=3.0 if kind == "isometry" else None, ls_time="automatic (not passed)", density_estimator_kwargs="default",
+                        sequence="the base fit, then the fits on transformed data, each with a freshly constructed estimator, in one process")
+            shift = -sd * np.log(a)
+            ck.cmp("ls", othera.ls, a * basea.ls, 1e-9 * a * basea.ls, key, desc)
+            ck.cmp("mu", othera.mu, basea.mu + shift, 1e-9 * (1 + abs(basea.mu) + abs(shift)), key, desc)
+            ck.cmp("ls_time (automatic)", othera.ls_time, basea.ls_time, 5e-2 * basea.ls_time, key, desc, tight=False)
+            ck.cmp("fitted values", othera.fitted, basea.fitted + shift, basea.opt_bound() + othera.opt_bound() + 2e-2, key, desc, tight=False)
+    except Exception as e:      # noqa
+        ctx.violation("C08|TimeSensitiveDensityEstimator|full|automatic-ls_time|exception", "fit with automatic ls_time failed",
+                      dict(error=repr(e)[:300]))
     # ---- near-duplicate (but distinct) cells at small scales: the heuristics must scale exactly, i.e. no absolute
     #      length threshold may enter (twin cells 2e-6 .. 6e-6 apart, a down to 1e-3: distances of a few 1e-9)
     try:
